@@ -81,8 +81,11 @@ theorem AdvKeep.applyResults (a : Pid) : ∀ (rs : Results) (w : WorkerSt), AdvK
   | [], w => AdvKeep.refl w
   | (t0, some r) :: rest, w => by
     unfold QM.Sys.applyResults; exact (AdvKeep.notifyResult w a t0 r).trans (AdvKeep.applyResults a rest _)
-  | (_, none) :: rest, w => by
-    unfold QM.Sys.applyResults; exact AdvKeep.applyResults a rest w
+  | (t0, none) :: rest, w => by
+    unfold QM.Sys.applyResults
+    refine (?_ : AdvKeep w (w.notifyPending a t0)).trans (AdvKeep.applyResults a rest _)
+    unfold WorkerSt.notifyPending
+    exact AdvKeep.modProc w a _ (fun y => ⟨rfl, Or.inr ⟨rfl, id⟩⟩)
 
 theorem AdvKeep.foldl {α : Type} (f : WorkerSt → α → WorkerSt) (hf : ∀ w a, AdvKeep w (f w a)) :
     ∀ (l : List α) (w : WorkerSt), AdvKeep w (l.foldl f w)
@@ -128,20 +131,22 @@ theorem slice_adv (prog : Prog) (now : Nat) (self : Pid) : ∀ (fuel : Nat) (x :
         · have ih := slice_adv prog now self fuel { x with selInit := true, selStart := some now }
           exact ih
         · exact ⟨⟨rfl, Or.inr ⟨rfl, id⟩⟩, fun _ _ h => by cases h⟩
-      · dsimp only
-        split
-        · rename_i v mb _
-          have ih := slice_adv prog now self fuel
-            { x with selStart := none, pc := x.pc + 1, selInit := false, acc := x.acc ++ [v], mailbox := mb,
-                     awaiting := x.awaiting.filter (fun kv => kv.1 ∉ selTargets x srcs),
-                     awaitFailed := x.awaitFailed.filter (· ∉ selTargets x srcs) }
-          have hstep : Adv x { x with selStart := none, pc := x.pc + 1, selInit := false, acc := x.acc ++ [v], mailbox := mb, awaiting := x.awaiting.filter (fun kv => kv.1 ∉ selTargets x srcs), awaitFailed := x.awaitFailed.filter (· ∉ selTargets x srcs) } :=
-            ⟨rfl, Or.inl (Nat.lt_succ_self _)⟩
-          refine ⟨hstep.trans ih.1, ?_⟩
-          intro f regs he
-          exact ih.2 f regs he
+      · split
         · exact ⟨⟨rfl, Or.inr ⟨rfl, id⟩⟩, fun _ _ h => by cases h⟩
-        · exact ⟨⟨rfl, Or.inr ⟨rfl, id⟩⟩, fun _ _ h => by cases h⟩
+        · dsimp only
+          split
+          · rename_i v mb _
+            have ih := slice_adv prog now self fuel
+              { x with selStart := none, pc := x.pc + 1, selInit := false, acc := x.acc ++ [v], mailbox := mb, unanswered := [],
+                       awaiting := x.awaiting.filter (fun kv => kv.1 ∉ selTargets x srcs),
+                       awaitFailed := x.awaitFailed.filter (· ∉ selTargets x srcs) }
+            have hstep : Adv x { x with selStart := none, pc := x.pc + 1, selInit := false, acc := x.acc ++ [v], mailbox := mb, unanswered := [], awaiting := x.awaiting.filter (fun kv => kv.1 ∉ selTargets x srcs), awaitFailed := x.awaitFailed.filter (· ∉ selTargets x srcs) } :=
+              ⟨rfl, Or.inl (Nat.lt_succ_self _)⟩
+            refine ⟨hstep.trans ih.1, ?_⟩
+            intro f regs he
+            exact ih.2 f regs he
+          · exact ⟨⟨rfl, Or.inr ⟨rfl, id⟩⟩, fun _ _ h => by cases h⟩
+          · exact ⟨⟨rfl, Or.inr ⟨rfl, id⟩⟩, fun _ _ h => by cases h⟩
 
 theorem AdvKeep.handleCmd {s : Sys} (i : Wid) (c : Cmd) (hok : ∀ p fn, c ≠ .resume p fn) (hst : ∀ p, c ≠ .start p)
     (hfresh : ∀ q f regs, c = .spawn q f regs → (s.wk i).procs q = none) :
